@@ -183,6 +183,24 @@ func init() {
 		}
 		return rvalV{C: s.Arr.Sub[s.Off+i], T: sl.Elem()}
 	})
+	reg("(reflect.Value).Pointer", func(x *Exec, _ *ssa.Function, a []Value) Value {
+		r := a[0].(rvalV)
+		switch v := r.load(x).(type) {
+		case *ssa.Function:
+			return x.C.BVC(64, uint64(v.Pos())+1)
+		case *Closure:
+			if v == nil {
+				return x.C.BVC(64, 0)
+			}
+			return x.C.BVC(64, uint64(v.Fn.Pos())+1)
+		case *Cell:
+			if v == nil {
+				return x.C.BVC(64, 0)
+			}
+			return x.C.BVC(64, uint64(v.ID)+1<<40)
+		}
+		panic(x.unsupported("reflect.Value.Pointer of %T", r.load(x)))
+	})
 	// reflect.Type methods used through the rtypeV model
 	reg("(*reflect.rtype).Kind", func(x *Exec, _ *ssa.Function, a []Value) Value {
 		return x.C.BVC(64, 0)
